@@ -42,6 +42,28 @@ pub struct JCase {
   pub notes: Vec<String>,
   /// fill_from_lockfile package specifiers: ("@scope/name@req", "version")
   pub seed: Vec<(String, String)>,
+  /// the newest-dependency date (RFC 3339) with the packages / name prefixes exempt from it
+  pub newest_date: Option<String>,
+  pub date_exclude: Vec<String>,
+  pub date_exclude_prefixes: Vec<String>,
+}
+
+pub const CUTOFF_DATE: &str = "2025-01-01T00:00:00Z";
+
+/// The JsrVersionResolver a case is built with.
+pub fn version_resolver(c: &JCase) -> deno_graph::packages::JsrVersionResolver {
+  let mut opts = deno_graph::packages::NewestDependencyDateOptions::default();
+  if let Some(d) = &c.newest_date {
+    let dt = chrono::DateTime::parse_from_rfc3339(d).unwrap().with_timezone(&chrono::Utc);
+    opts = deno_graph::packages::NewestDependencyDateOptions::from_date(dt);
+    for p in &c.date_exclude {
+      opts.exclude_jsr_pkgs.insert(p.as_str().into());
+    }
+    for p in &c.date_exclude_prefixes {
+      opts.exclude_jsr_pkg_prefixes.push(p.as_str().into());
+    }
+  }
+  deno_graph::packages::JsrVersionResolver { newest_dependency_date_options: opts }
 }
 
 #[derive(Clone, Debug)]
@@ -60,11 +82,12 @@ pub struct JGenCfg {
   pub manifest_faults: usize, // percent of manifest entries that are tampered / unsupported / missing (plus faults/2)
   pub asset_imports: usize,   // percent of relative imports written as text / bytes imports (outside the model)
   pub seeds: usize,           // percent of worlds whose graph is first filled from a lockfile (package specifiers)
+  pub dates: usize,           // percent of worlds built with a newest-dependency date (some packages exempt)
 }
 
 impl Default for JGenCfg {
   fn default() -> Self {
-    JGenCfg { faults: 12, locker: 40, prefer_cached: 30, stale_meta: 15, modinfo: 60, dynamic: 20, https_imports: 15, weird_exports: 10, partial_info: 12, stale_info: 15, dirty_cache: true, manifest_faults: 4, asset_imports: 0, seeds: 12 }
+    JGenCfg { faults: 12, locker: 40, prefer_cached: 30, stale_meta: 15, modinfo: 60, dynamic: 20, https_imports: 15, weird_exports: 10, partial_info: 12, stale_info: 15, dirty_cache: true, manifest_faults: 4, asset_imports: 0, seeds: 12, dates: 25 }
   }
 }
 
@@ -322,10 +345,25 @@ pub fn gen_jcase(rng: &mut Rng, cfg: &JGenCfg) -> JCase {
   for pkg in &pkgs {
     let url = format!("{}{}/meta.json", REGISTRY, pkg);
     let listed = &pkg_versions[*pkg];
+    // creation dates (a newest-dependency date may be in force): before the cut-off, after it, or absent
+    let created: BTreeMap<String, Option<&str>> = listed
+      .iter()
+      .map(|(v, _)| {
+        let h: u32 = format!("{}@{}", pkg, v).bytes().fold(5u32, |a, b| a.wrapping_mul(33).wrapping_add(b as u32));
+        (v.clone(), match h % 5 { 0 | 1 => Some("2024-06-01T00:00:00Z"), 2 | 3 => Some("2025-06-01T00:00:00Z"), _ => None })
+      })
+      .collect();
     let doc = |vs: &[(String, bool)]| -> Vec<u8> {
       let mut m = serde_json::Map::new();
       for (v, y) in vs {
-        m.insert(v.clone(), if *y { serde_json::json!({"yanked": true}) } else { serde_json::json!({}) });
+        let mut e = serde_json::Map::new();
+        if *y {
+          e.insert("yanked".into(), serde_json::json!(true));
+        }
+        if let Some(Some(d)) = created.get(v) {
+          e.insert("createdAt".into(), serde_json::json!(d));
+        }
+        m.insert(v.clone(), serde_json::Value::Object(e));
       }
       serde_json::to_vec(&serde_json::json!({"versions": m})).unwrap()
     };
@@ -407,6 +445,24 @@ pub fn gen_jcase(rng: &mut Rng, cfg: &JGenCfg) -> JCase {
   roots.dedup();
   c.roots = roots;
   c.prefer_cached = rng.chance(cfg.prefer_cached);
+  if rng.chance(cfg.dates) {
+    c.newest_date = Some(CUTOFF_DATE.to_string());
+    for pkg in &pkgs {
+      match rng.below(6) {
+        0 => c.date_exclude.push(pkg.to_string()),
+        1 => {
+          // the scope as a name prefix ("@scope/")
+          if let Some(i) = pkg.find('/') {
+            let pre = pkg[..=i].to_string();
+            if !c.date_exclude_prefixes.contains(&pre) {
+              c.date_exclude_prefixes.push(pre);
+            }
+          }
+        }
+        _ => {}
+      }
+    }
+  }
   if rng.chance(cfg.locker) {
     let mut lp = BTreeMap::new();
     for plan in &plans {
@@ -900,6 +956,24 @@ pub fn abs_jworld(c: &JCase, graph_specs: &BTreeSet<String>) -> JAbs {
   let lock_remote_sx = Sx::L(c.lock_remote.iter().map(|(s, c)| Sx::atoms([a.it.spec(s), a.chk(c)])).collect());
   let http = Sx::atoms(universe.iter().filter(|s| s.starts_with("http:") || s.starts_with("https:")).map(|s| a.it.spec(s)));
   let missing = a.chk("package-manifest-missing-checksum");
+  // the versions that are too new for the newest-dependency date in force for their package, as the real
+  // resolver judges them (exclusions by name and by prefix included)
+  let resolver = version_resolver(c);
+  let mut late: BTreeSet<(u64, u64)> = BTreeSet::new();
+  for (pkg, (u, r)) in &pdocs {
+    for d in [u, r] {
+      if let Doc::Ok(info, _) = d {
+        let name: deno_semver::package::PackageName = pkg.as_str().into();
+        let pr = resolver.get_for_package(&name, info);
+        for (v, vi) in &info.versions {
+          if !pr.matches_newest_dependency_date(vi) {
+            late.insert((a.pkg(pkg), a.ver(v)));
+          }
+        }
+      }
+    }
+  }
+  let late_sx: Vec<Sx> = late.iter().map(|(p, v)| Sx::atoms([*p, *v])).collect();
   a.world_sx = Sx::L(vec![
     Sx::L(cls),
     Sx::L(use_sx),
@@ -913,6 +987,7 @@ pub fn abs_jworld(c: &JCase, graph_specs: &BTreeSet<String>) -> JAbs {
     Sx::A(missing),
     Sx::A(c.max_redirects as u64),
     Sx::L(seed_sx),
+    Sx::L(late_sx),
   ]);
   a
 }
@@ -979,6 +1054,7 @@ pub fn real_jbuild_with(c: &JCase, loader: &dyn Loader, locker: &mut Option<LogL
   let options = BuildOptions {
     executor: &exec,
     prefer_cached_jsr_versions: c.prefer_cached,
+    jsr_version_resolver: std::borrow::Cow::Owned(version_resolver(c)),
     unstable_text_imports: c.unstable_text,
     unstable_bytes_imports: c.unstable_bytes,
     locker: locker.as_mut().map(|l| l as &mut dyn Locker),
